@@ -69,6 +69,9 @@ func suite(minN, maxN, nb int) hlib.Suite {
 				if !r.Mine() {
 					continue
 				}
+				if r.Expired() {
+					return
+				}
 				r.Eval()
 				setupB, iterB := make([]string, n), make([]string, n)
 				c := code
@@ -219,7 +222,7 @@ func suites(tier string) []hlib.Suite {
 	if tier == "quick" {
 		return []hlib.Suite{suite(1, 2, 14), suite(3, 3, 5)}
 	}
-	return []hlib.Suite{suite(1, 3, 14), suite(4, 4, 5)}
+	return []hlib.Suite{suite(1, 2, 14), suite(3, 3, 10), suite(4, 4, 5)}
 }
 
 func main() { hlib.EnumMain("C20", suites) } // hlib initialises the process-wide metrics instance T.Time needs
